@@ -442,3 +442,316 @@ Proof.
       eapply kids_wf_mono; [|exact Hk]. lia.
     + simpl. apply nth_error_alloc.
 Qed.
+
+(* ---------- heaps that only grow: every map keeps (at least) its pairs ---------- *)
+Definition heap_le (h h' : heap) : Prop :=
+  length h <= length h' /\
+  forall a m, nth_error h a = Some m -> exists m', nth_error h' a = Some m' /\ msubP (entries m) (entries m').
+
+Lemma heap_le_refl h : heap_le h h.
+Proof. split; [lia|]. intros a m E. exists m. split; [exact E|apply msubP_refl]. Qed.
+
+Lemma heap_le_trans h1 h2 h3 : heap_le h1 h2 -> heap_le h2 h3 -> heap_le h1 h3.
+Proof.
+  intros [L1 H1] [L2 H2]. split; [lia|]. intros a m E.
+  destruct (H1 a m E) as [m' [E' S']]. destruct (H2 a m' E') as [m'' [E'' S'']].
+  exists m''. split; [exact E''|]. eapply msubP_trans; eassumption.
+Qed.
+
+Lemma agree_heap_le h h' : agree (length h) h h' -> heap_le h h'.
+Proof.
+  intros [L A]. split; [exact L|]. intros a m E. exists m. split; [|apply msubP_refl].
+  rewrite A; [exact E|]. apply nth_error_Some. congruence.
+Qed.
+
+Lemma hset_heap_le f m m' h :
+  nth_error h f = Some m -> msubP (entries m) (entries m') -> heap_le h (hset f m' h).
+Proof.
+  intros E S. split; [rewrite hset_length; lia|]. intros a x Ea.
+  destruct (Nat.eq_dec a f) as [->|Hne].
+  - exists m'. split; [apply hset_same; apply nth_error_Some; congruence|]. congruence.
+  - exists x. split; [rewrite hset_other; [exact Ea|congruence]|apply msubP_refl].
+Qed.
+
+Lemma deref_heap_le h h' r :
+  heap_le h h' -> ref_ok (length h) r = true ->
+  msubP (entries (omap (deref h r))) (entries (omap (deref h' r))).
+Proof.
+  intros [L H] Hr. destruct r as [a|]; simpl; [|apply msubP_refl].
+  simpl in Hr. apply Nat.ltb_lt in Hr. unfold hget.
+  destruct (nth_error h a) as [m|] eqn:E; [|apply nth_error_None in E; lia].
+  destruct (H a m E) as [m' [E' S']]. rewrite E'. exact S'.
+Qed.
+
+Definition kid_pairs (w : bool) (h : heap) (ks : option (list (string * ve))) : list (string * string) :=
+  flat_map (fun kc => map (pfx_pair (fst kc +++ dot)) (pairs w (abs h (snd kc)))) (okids ks).
+
+Lemma pairs_abs_node' w h e wn ks :
+  pairs w (abs h (Node e wn ks)) = entries (omap (deref h (sel w e wn))) ++ kid_pairs w h ks.
+Proof. apply pairs_abs_node. Qed.
+
+Lemma pairs_mono w h h' : heap_le h h' -> forall t, wf h t = true ->
+  msubP (pairs w (abs h t)) (pairs w (abs h' t)).
+Proof.
+  intros Hle t. induction t as [e wn ks IH] using tree_ind'. intros Hwf.
+  unfold wf in Hwf. apply wfn_node in Hwf as [He [Hw Hk]]. rewrite !pairs_abs_node.
+  apply msubP_app.
+  - apply deref_heap_le; [exact Hle|]. now apply ref_ok_sel.
+  - apply msubP_flat_map. intros kc Hin. apply msubP_map. rewrite Forall_forall in IH.
+    apply IH; [exact Hin|]. rewrite forallb_forall in Hk. now apply Hk.
+Qed.
+
+Lemma kid_pairs_mono w h h' ks : heap_le h h' -> kids_wf (length h) ks = true ->
+  msubP (kid_pairs w h ks) (kid_pairs w h' ks).
+Proof.
+  intros Hle Hk. unfold kid_pairs. apply msubP_flat_map. intros kc Hin. apply msubP_map.
+  apply pairs_mono; [exact Hle|]. unfold kids_wf in Hk. rewrite forallb_forall in Hk. now apply Hk.
+Qed.
+
+(* ---------- AddErrorToValidation ---------- *)
+Lemma as_ve_wf h e t : err_wf h e = true -> as_ve e = Some t -> wf h t = true.
+Proof.
+  induction e as [| |s|t'|s e IH]; simpl; intros Hw E; try discriminate.
+  - now injection E as <-.
+  - now apply IH.
+Qed.
+
+Lemma as_ve_not_nil e t : as_ve e = Some t -> is_nil e = false.
+Proof. destruct e; simpl; intros E; try discriminate; reflexivity. Qed.
+
+Lemma to_ve_spec e h :
+  err_wf h e = true -> is_nil e = false ->
+  let '(t, h1) := to_ve e h in
+  wf h1 t = true /\ agree (length h) h h1 /\ forall w, pairs w (abs h1 t) = err_pairs w h e.
+Proof.
+  intros Hw Hn. unfold to_ve, err_pairs. rewrite Hn. destruct (as_ve e) as [t|] eqn:E.
+  - split; [eapply as_ve_wf; eassumption|]. split; [apply agree_refl|reflexivity].
+  - pose proof (new_validation_error_spec empty_str (err_text e) false h) as S.
+    destruct (new_validation_error empty_str (err_text e) false h) as [t h1].
+    destruct S as [W [A Eabs]]. split; [exact W|]. split; [exact A|]. intros w. rewrite Eabs. now destruct w.
+Qed.
+
+Lemma ensure_spec r h :
+  ref_ok (length h) r = true ->
+  let '(a, h') := ensure r h in
+  a < length h' /\ agree (length h) h h' /\ nth_error h' a = Some (omap (deref h r)).
+Proof.
+  intros Hr. destruct r as [a|]; simpl.
+  - simpl in Hr. apply Nat.ltb_lt in Hr. split; [exact Hr|]. split; [apply agree_refl|]. unfold hget.
+    destruct (nth_error h a) eqn:E; [reflexivity|]. apply nth_error_None in E. lia.
+  - split; [rewrite app_length; simpl; lia|]. split; [apply agree_alloc; lia|apply nth_error_alloc].
+Qed.
+
+Lemma heap_le_get h h' a m :
+  heap_le h h' -> nth_error h a = Some m -> exists m', nth_error h' a = Some m' /\ msubP (entries m) (entries m').
+Proof. intros [_ H]. apply H. Qed.
+
+Lemma heap_le_length h h' : heap_le h h' -> length h <= length h'.
+Proof. now intros [L _]. Qed.
+
+Lemma perm_swap_tail {A} (a b c : list A) : Permutation ((a ++ b) ++ c) ((a ++ c) ++ b).
+Proof. rewrite <- !app_assoc. apply Permutation_app_head. apply Permutation_app_comm. Qed.
+
+Lemma agree_len n h h' : agree n h h' -> length h <= length h'.
+Proof. now intros [L _]. Qed.
+
+Theorem add_contains e1 e2 h :
+  err_wf h e1 = true -> err_wf h e2 = true ->
+  exists r h', add_error_to_validation e1 e2 h = Result (r, h') /\
+    heap_le h h' /\
+    match r with Some t => wf h' t = true | None => True end /\
+    forall w, msubP (err_pairs w h e1 ++ err_pairs w h e2) (res_pairs w h' r).
+Proof.
+  intros W1 W2. unfold add_error_to_validation.
+  destruct (is_nil e1) eqn:N1.
+  - destruct (is_nil e2) eqn:N2.
+    + exists None, h. split; [reflexivity|]. split; [apply heap_le_refl|]. split; [exact I|].
+      intros w. unfold err_pairs. rewrite N1, N2. apply msubP_refl.
+    + pose proof (to_ve_spec e2 h W2 N2) as S. destruct (to_ve e2 h) as [t h1]. destruct S as [Wt [A P]].
+      exists (Some t), h1. split; [reflexivity|]. split; [now apply agree_heap_le|]. split; [exact Wt|].
+      intros w. cbn [res_pairs]. rewrite P. unfold err_pairs at 1. rewrite N1. apply msubP_refl.
+  - pose proof (to_ve_spec e1 h W1 N1) as S. destruct (to_ve e1 h) as [t1 h1]. destruct S as [Wt [A1 P1]].
+    destruct t1 as [e w ks].
+    assert (LE01 : heap_le h h1) by now apply agree_heap_le.
+    destruct (is_nil e2) eqn:N2.
+    + exists (Some (Node e w ks)), h1. split; [reflexivity|]. split; [exact LE01|]. split; [exact Wt|].
+      intros w'. cbn [res_pairs]. rewrite P1. unfold err_pairs at 2. rewrite N2, app_nil_r. apply msubP_refl.
+    + pose proof Wt as Wt'. unfold wf in Wt'. apply wfn_node in Wt' as [He [Hw Hk]].
+      pose proof (ensure_spec e h1 He) as S. destruct (ensure e h1) as [ea h2]. destruct S as [Lea [A2 Eea]].
+      pose proof (agree_len _ _ _ A1) as L01. pose proof (agree_len _ _ _ A2) as L12.
+      assert (LE12 : heap_le h1 h2) by now apply agree_heap_le.
+      destruct (as_ve e2) as [o|] eqn:Eo.
+      * (* the second argument is (or wraps) a ValidationError *)
+        assert (Wo : wf h o = true) by (eapply as_ve_wf; eassumption).
+        assert (Wo2 : wf h2 o = true) by (eapply wf_agree; [|exact Wo]; lia).
+        destruct (get_flat_spec false o h2 Wo2) as [h3 [E3 [A3 [L3 [me [Eme Pme]]]]]].
+        rewrite E3. cbn [bind read_map]. unfold hget. rewrite Eme. cbn [bind].
+        assert (Eea3 : nth_error h3 ea = Some (omap (deref h1 e))).
+        { destruct A3 as [_ A3]. rewrite A3; [exact Eea|exact Lea]. }
+        destruct (h_add_all_ok ea me h3 _ Eea3) as [m1 [E4 [P4 _]]]. rewrite E4. cbn [bind].
+        set (h4 := hset ea m1 h3).
+        assert (L34 : length h4 = length h3) by apply hset_length.
+        assert (LE23 : heap_le h2 h3) by now apply agree_heap_le.
+        assert (LE34 : heap_le h3 h4).
+        { eapply hset_heap_le; [exact Eea3|]. eapply msubP_perm_r; [symmetry; exact P4|]. apply msubP_app_r. }
+        assert (Hw4 : ref_ok (length h4) w = true) by (eapply ref_ok_mono; [|exact Hw]; lia).
+        pose proof (ensure_spec w h4 Hw4) as S. destruct (ensure w h4) as [wa h5]. destruct S as [Lwa [A5 Ewa]].
+        pose proof (agree_len _ _ _ A5) as L45.
+        assert (LE45 : heap_le h4 h5) by now apply agree_heap_le.
+        assert (Wo5 : wf h5 o = true) by (eapply wf_agree; [|exact Wo]; lia).
+        destruct (get_flat_spec true o h5 Wo5) as [h6 [E6 [A6 [L6 [mw [Emw Pmw]]]]]].
+        rewrite E6. cbn [bind read_map]. unfold hget. rewrite Emw. cbn [bind].
+        assert (Ewa6 : nth_error h6 wa = Some (omap (deref h4 w))).
+        { destruct A6 as [_ A6]. rewrite A6; [exact Ewa|exact Lwa]. }
+        destruct (h_add_all_ok wa mw h6 _ Ewa6) as [m2 [E7 [P7 _]]]. rewrite E7. cbn [bind].
+        set (h7 := hset wa m2 h6).
+        assert (L67 : length h7 = length h6) by apply hset_length.
+        assert (LE56 : heap_le h5 h6) by now apply agree_heap_le.
+        assert (LE67 : heap_le h6 h7).
+        { eapply hset_heap_le; [exact Ewa6|]. eapply msubP_perm_r; [symmetry; exact P7|]. apply msubP_app_r. }
+        assert (LE47 : heap_le h4 h7) by (eapply heap_le_trans; [exact LE45|]; eapply heap_le_trans; [exact LE56|exact LE67]).
+        assert (LE14 : heap_le h1 h4) by (eapply heap_le_trans; [exact LE12|]; eapply heap_le_trans; [exact LE23|exact LE34]).
+        assert (LE17 : heap_le h1 h7) by (eapply heap_le_trans; [exact LE14|exact LE47]).
+        assert (LE05 : heap_le h h5) by (eapply heap_le_trans; [exact LE01|]; eapply heap_le_trans; [exact LE14|exact LE45]).
+        exists (Some (Node (Some ea) (Some wa) ks)), h7. split; [reflexivity|].
+        split; [eapply heap_le_trans; [exact LE01|exact LE17]|].
+        split.
+        { unfold wf. apply wfn_node_intro.
+          - simpl. apply Nat.ltb_lt. lia.
+          - simpl. apply Nat.ltb_lt. lia.
+          - eapply kids_wf_mono; [|exact Hk]. lia. }
+        assert (Ee2 : forall w', err_pairs w' h e2 = pairs w' (abs h o)) by (intros w'; unfold err_pairs; now rewrite N2, Eo).
+        assert (K17 : forall w', msubP (kid_pairs w' h1 ks) (kid_pairs w' h7 ks)) by (intros w'; now apply kid_pairs_mono).
+        intros [|]; cbn [res_pairs]; rewrite <- P1, Ee2, !pairs_abs_node'; cbn [sel];
+          (eapply msubP_perm_l; [apply perm_swap_tail|]); apply msubP_app; try apply K17.
+        -- (* warnings *)
+           cbn [deref]. unfold hget. unfold h7 at 1. rewrite hset_same by lia. cbn [omap].
+           eapply msubP_perm_r; [symmetry; exact P7|]. apply msubP_app.
+           ++ apply deref_heap_le; [exact LE14|exact Hw].
+           ++ eapply msubP_perm_r; [symmetry; exact Pmw|]. apply pairs_mono; [exact LE05|exact Wo].
+        -- (* errors *)
+           cbn [deref]. unfold hget.
+           assert (E4ea : nth_error h4 ea = Some m1) by (unfold h4; apply hset_same; lia).
+           destruct (heap_le_get _ _ _ _ LE47 E4ea) as [m' [Em' Sm']]. rewrite Em'. cbn [omap].
+           eapply msubP_trans; [|exact Sm']. eapply msubP_perm_r; [symmetry; exact P4|].
+           apply msubP_app; [apply msubP_refl|]. apply msubP_of_perm. rewrite Pme.
+           assert (A02 : agree (length h) h h2) by (eapply agree_trans; [exact A1|]; eapply agree_le; [|exact A2]; lia).
+           now rewrite (abs_agree _ _ _ A02 _ Wo).
+      * (* the second argument is some other error: its text becomes an error under the empty key *)
+        rewrite (h_add_msgs_ok _ _ _ _ _ Eea). cbn [bind].
+        set (m0 := omap (deref h1 e)) in *. set (h3 := hset ea _ h2).
+        assert (L23 : length h3 = length h2) by apply hset_length.
+        assert (LE23 : heap_le h2 h3).
+        { eapply hset_heap_le; [exact Eea|]. eapply msubP_perm_r; [symmetry; apply entries_add_msgs|]. apply msubP_app_r. }
+        assert (LE13 : heap_le h1 h3) by (eapply heap_le_trans; [exact LE12|exact LE23]).
+        exists (Some (Node (Some ea) w ks)), h3. split; [reflexivity|].
+        split; [eapply heap_le_trans; [exact LE01|exact LE13]|].
+        split.
+        { unfold wf. apply wfn_node_intro.
+          - simpl. apply Nat.ltb_lt. lia.
+          - eapply ref_ok_mono; [|exact Hw]. lia.
+          - eapply kids_wf_mono; [|exact Hk]. lia. }
+        assert (K13 : forall w', msubP (kid_pairs w' h1 ks) (kid_pairs w' h3 ks)) by (intros w'; now apply kid_pairs_mono).
+        intros [|]; cbn [res_pairs]; rewrite <- P1; unfold err_pairs; rewrite N2, Eo; rewrite !pairs_abs_node'; cbn [sel].
+        -- rewrite app_nil_r. apply msubP_app; [|apply K13]. apply deref_heap_le; [exact LE13|exact Hw].
+        -- eapply msubP_perm_l; [apply perm_swap_tail|]. apply msubP_app; [|apply K13].
+           cbn [deref]. unfold hget, h3. rewrite hset_same by lia. cbn [omap].
+           apply msubP_of_perm. symmetry. apply entries_add_msgs.
+Qed.
+
+(* ---------- the specification itself: paths, kinds apart, iteration order ---------- *)
+(* [has_msg w t k m]: message m is stored in the w-map of some node of t under a field f, and k is the
+   dot-separated path of child names leading to that node followed by f *)
+Inductive has_msg (w : bool) : vt -> string -> string -> Prop :=
+| HM_here e wn ks f ms m :
+    In (f, ms) (omap (sel w e wn)) -> In m ms -> has_msg w (Node e wn ks) f m
+| HM_child e wn l c t' k m :
+    In (c, t') l -> has_msg w t' k m -> has_msg w (Node e wn (Some l)) (c +++ dot +++ k) m.
+
+Lemma in_entries (m : amap) k x : In (k, x) (entries m) <-> exists ms, In (k, ms) m /\ In x ms.
+Proof.
+  unfold entries. rewrite in_flat_map. split.
+  - intros [[k' ms] [Hin Hx]]. simpl in Hx. apply in_map_iff in Hx as [y [Hy Hin']]. injection Hy as -> ->.
+    exists ms. now split.
+  - intros [ms [Hin Hx]]. exists (k, ms). split; [exact Hin|]. simpl. apply in_map_iff. now exists x.
+Qed.
+
+Lemma pairs_paths w t : forall k m, In (k, m) (pairs w t) <-> has_msg w t k m.
+Proof.
+  induction t as [e wn ks IH] using tree_ind'. intros k m. cbn [pairs]. rewrite in_app_iff. split.
+  - intros [Hin | Hin].
+    + apply in_entries in Hin as [ms [H1 H2]]. econstructor; eassumption.
+    + destruct ks as [l|]; [|destruct Hin]. apply in_flat_map in Hin as [[c t'] [Hin Hx]].
+      simpl in Hx. apply in_map_iff in Hx as [[k' m'] [Hy Hin']]. unfold pfx_pair in Hy. simpl in Hy.
+      injection Hy as <- <-. rewrite sapp_assoc. apply HM_child with (t' := t'); [exact Hin|].
+      simpl in IH. rewrite Forall_forall in IH. apply (IH (c, t') Hin). exact Hin'.
+  - intros H. inversion H as [? ? ? f ms ? H1 H2|? ? l c t' k' ? H1 H2]; subst.
+    + left. apply in_entries. now exists ms.
+    + right. apply in_flat_map. exists (c, t'). split; [exact H1|]. simpl. apply in_map_iff.
+      exists (k', m). split; [unfold pfx_pair; simpl; now rewrite sapp_assoc|].
+      simpl in IH. rewrite Forall_forall in IH. apply (IH (c, t') H1). exact H2.
+Qed.
+
+(* keep only the errors (w = false) or only the warnings (w = true) of every node *)
+Fixpoint only (w : bool) (t : vt) : vt :=
+  match t with
+  | Node e wn ks =>
+      Node (if w then None else e) (if w then wn else None)
+           (match ks with None => None | Some l => Some (map (fun kc => (fst kc, only w (snd kc))) l) end)
+  end.
+
+Lemma pairs_only_same w t : pairs w (only w t) = pairs w t.
+Proof.
+  induction t as [e wn ks IH] using tree_ind'. cbn [only pairs]. f_equal; [now destruct w|].
+  destruct ks as [l|]; [|reflexivity]. rewrite flat_map_map'. apply flat_map_ext_in'. intros kc Hin. simpl.
+  cbn [okids] in IH. rewrite Forall_forall in IH. f_equal. exact (IH kc Hin).
+Qed.
+
+Lemma pairs_only_other w t : pairs (negb w) (only w t) = [].
+Proof.
+  induction t as [e wn ks IH] using tree_ind'. cbn [only pairs].
+  replace (entries (omap (sel (negb w) (if w then None else e) (if w then wn else None)))) with (@nil (string * string))
+    by now destruct w.
+  destruct ks as [l|]; [|reflexivity]. simpl. rewrite flat_map_map'. cbn [okids] in IH.
+  induction l as [|kc l IHl]; [reflexivity|]. inversion IH as [|? ? H1 H2]; subst. simpl. change (snd kc) with (snd kc : vt) in H1.
+  unfold vt in *. rewrite H1. simpl. now apply IHl.
+Qed.
+
+(* the specification does not depend on the order of map entries or of children, at any level *)
+Lemma entries_perm (m m' : amap) : Permutation m m' -> Permutation (entries m) (entries m').
+Proof. apply flat_map_perm_list. Qed.
+
+Lemma pairs_perm_top w e wn e' wn' ks :
+  Permutation (omap (sel w e wn)) (omap (sel w e' wn')) ->
+  Permutation (pairs w (Node e wn ks)) (pairs w (Node e' wn' ks)).
+Proof. intros H. cbn [pairs]. apply Permutation_app_tail. now apply entries_perm. Qed.
+
+Lemma pairs_perm_kids w e wn l l' :
+  Permutation l l' -> Permutation (pairs w (Node e wn (Some l))) (pairs w (Node e wn (Some l'))).
+Proof. intros H. cbn [pairs]. apply Permutation_app_head. now apply flat_map_perm_list. Qed.
+
+Lemma pairs_perm_congr w e wn l l' :
+  Forall2 (fun kc kc' => fst kc = fst kc' /\ Permutation (pairs w (snd kc)) (pairs w (snd kc'))) l l' ->
+  Permutation (pairs w (Node e wn (Some l))) (pairs w (Node e wn (Some l'))).
+Proof.
+  intros H. cbn [pairs]. apply Permutation_app_head. induction H as [|kc kc' l l' [Hk Hp] _ IH]; simpl; [constructor|].
+  apply Permutation_app; [|exact IH]. rewrite Hk. now apply Permutation_map.
+Qed.
+
+(* two answers to the same read of the same value are the same up to iteration order *)
+Definition val_equiv (v1 v2 : read_val) : Prop :=
+  match v1, v2 with
+  | VLines a, VLines b => Permutation a b
+  | VMap (Some a), VMap (Some b) => Permutation (entries a) (entries b)
+  | VMap None, VMap None => True
+  | _, _ => False
+  end.
+
+Lemma val_spec_equiv a op v1 v2 : val_spec a op v1 -> val_spec a op v2 -> val_equiv v1 v2.
+Proof.
+  destruct op, v1 as [l1|[m1|]], v2 as [l2|[m2|]]; simpl; intros H1 H2; try contradiction; try discriminate;
+    try (rewrite H1, H2; reflexivity); try (rewrite H1; symmetry; exact H2); try exact I;
+    try (subst m1; subst m2; reflexivity).
+  all: try (rewrite <- H2 in H1; injection H1 as ->; reflexivity).
+  all: try (rewrite <- H2 in H1; discriminate).
+Qed.
